@@ -746,6 +746,37 @@ def m_index [FloatLike φ] [BEq ω] (ext : Ext m φ ω) (c x : Val φ ω) : m (V
     | none => throw Exc.ValueError
   | _ => callMethod ext c "index" [x] []
 
+/-! ## `c[...]` and the `with` statement -/
+
+/-- `c[...]` (an `Ellipsis` subscript): numpy arrays / h5py datasets answer it (the oracle's `getitem[...]`); no built-in
+    sequence accepts it, and no dictionary of values has it as a key -/
+def getItemEllipsis (ext : Ext m φ ω) (c : Val φ ω) : m (Val φ ω) :=
+  match c with
+  | .obj _ => ext.op "getitem[...]" [c]
+  | .dict _ => throw Exc.KeyError
+  | _ => throw Exc.TypeError
+
+/-- the name of an exception class -/
+def Exc.name : Exc → String
+  | .Exception => "Exception" | .TypeError => "TypeError" | .ValueError => "ValueError" | .KeyError => "KeyError"
+  | .IndexError => "IndexError" | .LookupError => "LookupError" | .AttributeError => "AttributeError"
+  | .NotImplementedError => "NotImplementedError" | .RuntimeError => "RuntimeError"
+  | .RecursionError => "RecursionError" | .UnicodeError => "UnicodeError" | .UnicodeDecodeError => "UnicodeDecodeError"
+  | .ZeroDivisionError => "ZeroDivisionError" | .ArithmeticError => "ArithmeticError" | .NameError => "NameError"
+  | .OSError => "OSError" | .ImportError => "ImportError" | .AssertionError => "AssertionError"
+  | .StopIteration => "StopIteration" | .other n => n
+
+/-- leaving a `with cm:` block: `cm.__exit__(None, None, None)` when the block completed (the result is ignored),
+    `cm.__exit__(type, value, traceback)` when it raised — the exception is represented by the name of its class, and a
+    true result means the context manager SUPPRESSES it.  An exception raised by `__exit__` itself propagates. -/
+def withExit [FloatLike φ] (ext : Ext m φ ω) (cm : Val φ ω) : Option Exc → m Bool
+  | none => do
+    let _ ← callMethod ext cm "__exit__" [.none, .none, .none] []
+    pure false
+  | some e => do
+    let r ← callMethod ext cm "__exit__" [.str e.name, .str e.name, .none] []
+    truthy ext r
+
 end
 
 end Taurex.Gen.Dyn
